@@ -27,11 +27,18 @@ class_model("ErrorHandlerCtx", {})
 CLASSES["ErrorHandlerCtx"]["opaque_methods"] = True
 try:
     import z3
-    from pyvc.vals import SV, INT
+    from pyvc.vals import SV, INT, Unsupported
+
+    def _stack(interp):
+        return tuple(interp.ctx.ghost.get("ctx_stack", ()))
 
     def _push(interp, args, kwargs):
         g = interp.ctx.ghost
         g["ctx_depth"] = SV(INT, interp.ctx.term(g["ctx_depth"], INT) + 1)
+        # contexts pushed since the function was entered: (kind, value)
+        kind = args[1] if len(args) > 1 else kwargs.get("context_type")
+        value = args[2] if len(args) > 2 else kwargs.get("context")
+        g["ctx_stack"] = _stack(interp) + ((kind, value),)
 
     def _pop(interp, args, kwargs):
         ctx = interp.ctx
@@ -40,8 +47,53 @@ try:
         ctx.oblige("call-pre", "pop_error_context.not-below-entry-level", d > ctx.term(g["ctx_depth0"], INT),
                    info={"callee": "ErrorHandler.pop_error_context"})
         g["ctx_depth"] = SV(INT, d - 1)
+        g["ctx_stack"] = _stack(interp)[:-1]
+
+    def _label_rule(site):
+        """C07 "each labelled with the 1-based file row and the column it came from": at the calls that stamp the context onto issues, the
+        context stack built by this function must be what the contract's label rule for that site says (ghost['label_rules'])."""
+        def f(interp, args, kwargs):
+            ctx = interp.ctx
+            rules = ctx.contract.ghost.get("label_rules", {})
+            key = site
+            if site == "format_error_with_context" and len(args) > 1 and isinstance(args[1], str):
+                key = f"{site}:{args[1]}"
+            rule = rules.get(key)
+            if rule is not None:
+                st = _stack(interp)
+                g = ctx.ghost
+                kinds = [k for k, _ in st]
+                g["ctx_top"] = kinds[-1] if kinds else ""
+                g["ctx_kinds"] = tuple(kinds)
+                ec = interp.engine.index.class_constants("ErrorContext") or {}
+                rows = [v for k, v in st if k == ec.get("ROW")]
+                g["ctx_row"] = rows[-1] if rows else None
+                for label, text in rule.items():
+                    val = interp.eval_in_spec(text)
+                    ctx.oblige("call-pre", f"{site}.{label}", ctx.zbool(ctx.truth(val)), info={"callee": "ErrorHandler." + site, "clause": text})
+            from pyvc.vals import Opaque
+            return Opaque(site + "()", fresh=True)
+        return f
+    def _row_adj_rule(name, pos):
+        """C07 "1-based file row (header counted)": the row adjustment handed to the row loops is 1, plus 1 when the file has a header line"""
+        def f(interp, args, kwargs):
+            from pyvc.vals import Opaque, BOOL
+            ctx = interp.ctx
+            adj = kwargs["row_adj"] if "row_adj" in kwargs else args[pos]
+            data0 = ctx.entry_env["data"]
+            header = ctx.term(interp.field_read(data0, "has_column_names"), BOOL)
+            ctx.oblige("call-pre", f"{name}.C07.label.row_adj_is_one_plus_header", ctx.term(adj, INT) == z3.If(header, 2, 1),
+                       info={"callee": "SpreadsheetValidator." + name})
+            if ("called" + name) in ctx.ghost:
+                ctx.ghost["called" + name] = True
+            return Opaque(name + "()", fresh=True)
+        return f
+    for _n, _p in (("_validate_column_structure", 3), ("_run_checks", 3), ("_run_onset_checks", 3)):
+        EXTERNS["SpreadsheetValidatorM." + _n] = _row_adj_rule(_n, _p)
     EXTERNS["ErrorHandlerCtx.push_error_context"] = _push
     EXTERNS["ErrorHandlerCtx.pop_error_context"] = _pop
+    EXTERNS["ErrorHandlerCtx.add_context_and_filter"] = _label_rule("add_context_and_filter")
+    EXTERNS["ErrorHandlerCtx.format_error_with_context"] = _label_rule("format_error_with_context")
 except ImportError:
     pass
 
@@ -50,12 +102,44 @@ G = {"vars": {"ctx_depth0": "Int"}, "init": {"ctx_depth": "ctx_depth0"}, "no_fra
 BAL = {"C07.context.stack_balanced": "ctx_depth == ctx_depth0"}
 NOTE = ["loops explored as one arbitrary iteration from a havocked state (sound for the ghost balance: every iteration is shown "
         "to leave ctx_depth unchanged); table values are pandas (opaque)"]
+class_model("OnsetRow", {"original_index": "Int", "HED": "Str", "Index": "Int"})
+ROWLBL = "C07.label.row_is_file_row_of_the_row_being_checked"
 contract("C07.run_onset_checks", file=SV_FILE, func="SpreadsheetValidator._run_onset_checks",
          params={"self": "Opaque", "onset_filtered": "Opaque", "error_handler": "ErrorHandlerCtx", "row_adj": "Int"},
-         returns="Opaque", enc="native", ghost=G, ensures=BAL, unwind="havoc", assume=NOTE)
+         returns="Opaque", enc="native", locals={"row": "OnsetRow"},
+         ghost=dict(G, label_rules={"add_context_and_filter": {
+             ROWLBL: "ctx_row is not None and ctx_row == row.original_index + row_adj",
+             "C07.label.string_context_on_top": "ctx_top == ErrorContext.HED_STRING and ctx_kinds == (ErrorContext.ROW, ErrorContext.HED_STRING)"}}),
+         ensures=BAL, unwind="havoc", assume=NOTE)
 contract("C07.run_checks", file=SV_FILE, func="SpreadsheetValidator._run_checks",
          params={"self": "Opaque", "hed_df": "Opaque", "error_handler": "ErrorHandlerCtx", "row_adj": "Int", "onset_mask": "Opaque"},
-         returns="Opaque", enc="native", ghost=G, ensures=BAL, unwind="havoc", assume=NOTE)
+         returns="Opaque", enc="native", locals={"row_number": "Int"},
+         ghost=dict(G, label_rules={"add_context_and_filter": {
+             ROWLBL: "ctx_row is not None and ctx_row == row_number + row_adj",
+             "C07.label.string_context_on_top": "ctx_top == ErrorContext.HED_STRING and (ctx_kinds == (ErrorContext.ROW, ErrorContext.COLUMN, ErrorContext.HED_STRING)"
+                                                " or ctx_kinds == (ErrorContext.ROW, ErrorContext.HED_STRING))"}}),
+         ensures=BAL, unwind="havoc", assume=NOTE)
 contract("C07.validate_column_structure", file=SV_FILE, func="SpreadsheetValidator._validate_column_structure",
          params={"self": "Opaque", "base_input": "Opaque", "error_handler": "ErrorHandlerCtx", "row_adj": "Int"},
-         returns="Opaque", enc="native", ghost=G, ensures=BAL, unwind="havoc", assume=NOTE)
+         returns="Opaque", enc="native", locals={"row_number": "Int"},
+         ghost=dict(G, label_rules={"format_error_with_context:SIDECAR_KEY_MISSING": {
+             ROWLBL: "ctx_row is not None and ctx_row == row_number + row_adj",
+             "C07.label.unknown_key_carries_column_and_row": "ctx_kinds == (ErrorContext.COLUMN, ErrorContext.ROW)"}}),
+         ensures=BAL, unwind="havoc", assume=NOTE)
+
+class_model("SpreadsheetValidatorM", {"_schema": "Opaque", "_hed_validator": "Opaque", "_onset_validator": "Opaque",
+                                      "invalid_original_rows": "Opaque"})
+CLASSES["SpreadsheetValidatorM"]["opaque_methods"] = True
+class_model("BaseInput", {"has_column_names": "Bool", "needs_sorting": "Bool", "onsets": "Opaque", "dataframe": "Opaque",
+                           "dataframe_a": "Opaque", "series_a": "Opaque", "_dataframe": "Opaque"})
+CLASSES["BaseInput"]["opaque_methods"] = True
+contract("C07.validate", file=SV_FILE, func="SpreadsheetValidator.validate",
+         params={"self": "SpreadsheetValidatorM", "data": "BaseInput", "def_dicts": "Opaque", "name": "Opaque",
+                 "error_handler": "ErrorHandlerCtx"},
+         returns="Opaque", enc="native", unwind="havoc",
+         ghost=dict(G, init=dict(G["init"], called_validate_column_structure="False", called_run_checks="False")),
+         ensures=dict(BAL, **{"C07.phases.column_structure_and_every_row_checked": "called_validate_column_structure and called_run_checks"}),
+         modifies=["self.invalid_original_rows", "self._hed_validator", "self._onset_validator"],
+         raises={"TypeError": "True"},
+         assume=NOTE + ["the error_handler=None default (a new ErrorHandler) is not explored; isinstance(data, BaseInput) is unknown to the model "
+                        "(both outcomes explored)"])
